@@ -256,6 +256,9 @@ package libmem
 //@   requires a != nil && req != nil && a.masks != nil && a.custom.ExpandZone == nil
 //@   modifies req.zone
 //@   ensures[C07] result == nil && req.strict ==> (req.zone & a.masks.nodes.byTypes[req.types]) == req.zone
+//@   # C04 clause 1 (pinned nodes have memory, of the requested types when any such node is in reach): the
+//@   # initial zone is masked with the nodes of the requested types whenever that leaves something.
+//@   ensures[C04] result == nil && !req.strict ==> (req.zone & a.masks.nodes.byTypes[req.types]) == req.zone || (req.zone & a.masks.nodes.byTypes[req.types]) == 0
 
 //@ func (*Allocator).ensureNormalMemory ints=bv64 inline=12
 //@   requires a != nil && req != nil && a.masks != nil && a.custom.ExpandZone == nil
